@@ -84,36 +84,36 @@ func JSONSerialisations(header any, payload []byte, k *ecdsa.PrivateKey) map[str
 func CompactOddities(compact string) map[string]string {
 	parts := splitDots(compact)
 	out := map[string]string{
-		"empty":          "",
-		"one-dot":        ".",
-		"two-dots":       "..",
-		"three-dots":     "...",
-		"no-signature":   parts[0] + "." + parts[1] + ".",
-		"no-payload":     parts[0] + ".." + parts[2],
-		"no-header":      "." + parts[1] + "." + parts[2],
-		"only-header":    parts[0],
-		"header-payload": parts[0] + "." + parts[1],
-		"extra-part":     compact + "." + parts[2],
-		"padded":         parts[0] + "=." + parts[1] + "=." + parts[2] + "=",
-		"whitespace":     " " + parts[0] + " . " + parts[1] + " . " + parts[2] + " ",
-		"newline-inside": parts[0][:len(parts[0])/2] + "\n" + parts[0][len(parts[0])/2:] + "." + parts[1] + "." + parts[2],
-		"std-alphabet":   parts[0] + "+/." + parts[1] + "." + parts[2],
-		"nul-byte":       parts[0] + "\x00." + parts[1] + "." + parts[2],
-		"non-utf8":       parts[0] + ".\xff\xfe." + parts[2],
-		"header-not-json": B64([]byte("not json")) + "." + parts[1] + "." + parts[2],
-		"header-array":   B64([]byte("[]")) + "." + parts[1] + "." + parts[2],
-		"header-null":    B64([]byte("null")) + "." + parts[1] + "." + parts[2],
-		"header-string":  B64([]byte(`"x"`)) + "." + parts[1] + "." + parts[2],
+		"empty":            "",
+		"one-dot":          ".",
+		"two-dots":         "..",
+		"three-dots":       "...",
+		"no-signature":     parts[0] + "." + parts[1] + ".",
+		"no-payload":       parts[0] + ".." + parts[2],
+		"no-header":        "." + parts[1] + "." + parts[2],
+		"only-header":      parts[0],
+		"header-payload":   parts[0] + "." + parts[1],
+		"extra-part":       compact + "." + parts[2],
+		"padded":           parts[0] + "=." + parts[1] + "=." + parts[2] + "=",
+		"whitespace":       " " + parts[0] + " . " + parts[1] + " . " + parts[2] + " ",
+		"newline-inside":   parts[0][:len(parts[0])/2] + "\n" + parts[0][len(parts[0])/2:] + "." + parts[1] + "." + parts[2],
+		"std-alphabet":     parts[0] + "+/." + parts[1] + "." + parts[2],
+		"nul-byte":         parts[0] + "\x00." + parts[1] + "." + parts[2],
+		"non-utf8":         parts[0] + ".\xff\xfe." + parts[2],
+		"header-not-json":  B64([]byte("not json")) + "." + parts[1] + "." + parts[2],
+		"header-array":     B64([]byte("[]")) + "." + parts[1] + "." + parts[2],
+		"header-null":      B64([]byte("null")) + "." + parts[1] + "." + parts[2],
+		"header-string":    B64([]byte(`"x"`)) + "." + parts[1] + "." + parts[2],
 		"payload-not-json": parts[0] + "." + B64([]byte("not json")) + "." + parts[2],
-		"payload-array":  parts[0] + "." + B64([]byte("[]")) + "." + parts[2],
-		"payload-null":   parts[0] + "." + B64([]byte("null")) + "." + parts[2],
-		"payload-empty":  parts[0] + "." + B64([]byte("")) + "." + parts[2],
-		"sig-short":      parts[0] + "." + parts[1] + "." + parts[2][:10],
-		"sig-long":       parts[0] + "." + parts[1] + "." + parts[2] + parts[2],
-		"json-object":    "{}",
-		"json-array":     "[]",
-		"json-null":      "null",
-		"json-string":    `"` + compact + `"`,
+		"payload-array":    parts[0] + "." + B64([]byte("[]")) + "." + parts[2],
+		"payload-null":     parts[0] + "." + B64([]byte("null")) + "." + parts[2],
+		"payload-empty":    parts[0] + "." + B64([]byte("")) + "." + parts[2],
+		"sig-short":        parts[0] + "." + parts[1] + "." + parts[2][:10],
+		"sig-long":         parts[0] + "." + parts[1] + "." + parts[2] + parts[2],
+		"json-object":      "{}",
+		"json-array":       "[]",
+		"json-null":        "null",
+		"json-string":      `"` + compact + `"`,
 	}
 	// truncation at every 16th character
 	for i := 0; i < len(compact); i += 16 {
